@@ -16,7 +16,7 @@ package noise
 // ---- representation invariant of the read queue -------------------------------------------------------------
 // qinv: no queue <=> seek pointer 0; the seek pointer stays inside the queued frame.
 // qfill: the queue holds the plaintext of the frame opened last (nonce - 1), all of it.
-//@ pred qinv(s *secureSession) = (s.qbuf == nil ==> s.qseek == 0) && (s.qbuf != nil ==> 0 <= s.qseek && s.qseek <= len(s.qbuf))
+//@ pred qinv(s *secureSession) = (s.qbuf == nil ==> s.qseek == 0) && (s.qbuf != nil ==> 0 <= s.qseek && s.qseek <= len(s.qbuf) && !ghost.pooled(s.qbuf))
 //@ pred qfill(s *secureSession) = s.qbuf != nil ==> s.dec != nil && len(s.qbuf) == openedlen(s.dec, ghost.nonce(s.dec) - 1) &&
 //@     (forall i int :: 0 <= i && i < len(s.qbuf) ==> s.qbuf[i] == opened(s.dec, ghost.nonce(s.dec) - 1, i))
 
@@ -41,7 +41,7 @@ package noise
 //@ ensures result1 == nil ==> s.dec != nil && result0 != nil && len(ciphertext) >= 16 && len(result0) == len(out) + len(ciphertext) - 16 &&
 //@         openedlen(s.dec, old(ghost.nonce(s.dec))) == len(ciphertext) - 16
 //@ ensures result1 == nil ==> (cap(out) >= len(out) + len(ciphertext) - 16 ==> result0 == out[:len(out) + len(ciphertext) - 16]) &&
-//@         (cap(out) < len(out) + len(ciphertext) - 16 ==> fresh(result0))
+//@         (cap(out) < len(out) + len(ciphertext) - 16 ==> fresh(result0) && !ghost.pooled(result0))
 //@ ensures result1 == nil ==> ghost.nonce(s.dec) == old(ghost.nonce(s.dec)) + 1
 //@ ensures result1 == nil ==> forall i int :: 0 <= i && i < len(ciphertext) - 16 ==> result0[len(out) + i] == opened(s.dec, old(ghost.nonce(s.dec)), i)
 //@ modifies elems(out), ghost.nonce(s.dec)
@@ -134,7 +134,7 @@ package noise
 //@ ensures called(readNextMsgInsecure, 0) && ret(readNextMsgInsecure, 0, 0) != nil ==> result1 != nil && result0 == 0
 //@ ensures called(readNextMsgInsecure, 1) && ret(readNextMsgInsecure, 1, 0) != nil ==> result1 != nil && result0 == 0
 //@ ensures ncalls(decrypt, 0) + ncalls(decrypt, 1) <= 1
-//@ modifies s.qbuf, s.qseek, elems(buf), elems(s.rlen[:]), ghost.nonce(s.dec), ghost.consumed(s.insecureReader)
+//@ modifies s.qbuf, s.qseek, elems(buf), elems(s.rlen[:]), ghost.nonce(s.dec), ghost.consumed(s.insecureReader), ghost.pooled(_)
 
 // a new session starts with an empty read queue (qinv and qfill hold trivially)
 //@ func newSecureSession
